@@ -52,7 +52,7 @@ def _run(prog, method, args, table, index, dict_result=False):
 
 
 def _table():
-    return Obj("TABLE", kind="arrow", num_rows=Sym("NUM_ROWS", typ="int"))
+    return Obj("TABLE", kind="arrow", num_rows=Sym("NUM_ROWS", typ="int", notnone=True))
 
 
 def _slice_calls(path):
@@ -221,7 +221,7 @@ def rule_slice(ctx):
     n = 0
     IDX = Sym("INDEX", typ="int", notnone=True)
     for idx_name, idx in (("unset", Const(None)), ("set", IDX)):
-        for size_name, size in (("absent", Const(None)), ("given", Sym("SIZE", typ="int", truthy=True))):
+        for size_name, size in (("absent", Const(None)), ("given", Sym("SIZE", typ="int", truthy=True)), ("given as 0", Const(0))):
             for dict_result in (False, True):
                 for p, cur in _run(prog, "fetchmany", [size], _table, idx, dict_result):
                     if p.outcome != "return":
@@ -245,9 +245,9 @@ def rule_slice(ctx):
                         cur_idx = Const(0) if (idx_name == "unset" or idx_falsy) else IDX
                         if not lin_eq(off, cur_idx):
                             probs.append(f"offset `{tagof(off)}` is not {'0 when no row has been fetched' if cur_idx is not IDX else 'the running index'}")
-                        want_len = size if size_name == "given" else cur.attrs.get(R().arraysize)
+                        want_len = size if size_name.startswith("given") else cur.attrs.get(R().arraysize)
                         if not lin_eq(ln, want_len):
-                            probs.append(f"length `{tagof(ln)}` is not {'the size argument' if size_name == 'given' else 'arraysize'}")
+                            probs.append(f"length `{tagof(ln)}` is not {'the size argument' if size_name.startswith('given') else 'arraysize'}")
                         got_new = lin(new_idx)
                         if got_new is not None and idx_falsy:  # on this path the index is known to be 0
                             got_new = (got_new[0], {k: c for k, c in got_new[1].items() if k != "INDEX"})
@@ -280,6 +280,17 @@ def rule_slice(ctx):
         if not ok:
             ctx.violation("C05.e", "cursor", "FakeSnowflakeCursor.arraysize", "arraysize wiring", loc,
                           f"after `cursor.arraysize = n` fetchmany() slices `{tagof(ln)}` rows / the getter returns `{tagof(p.value)}`, not n")
+    # the configured arraysize is the caller's: no fetch method writes it (an explicit size is for that call only)
+    for meth, args in (("fetchmany", [Sym("SIZE", typ="int", truthy=True)]), ("fetchone", []), ("fetchall", [])):
+        for p, cur in _run(prog, meth, args, _table, IDX):
+            if p.outcome != "return":
+                continue
+            wrote = [e for e in p.effects if e[0] == "store" and e[1] is cur and e[2] == R().arraysize]
+            ctx.ob("C05.e", f"{meth} leaves the configured arraysize alone", not wrote, loc)
+            if wrote:
+                ctx.violation("C05.e", "cursor", f"FakeSnowflakeCursor.{meth}", "fetch method stores arraysize", loc,
+                              f"{meth} overwrites the cursor's arraysize with `{tagof(wrote[0][3])}`: a later fetchmany() without a size returns that many "
+                              f"rows instead of the configured batch size")
     # fetchone / fetchall go through the slicing method
     for meth, want in (("fetchone", 1), ("fetchall", "NUM_ROWS")):
         for p, cur in _run(prog, meth, [], _table, IDX):
